@@ -47,6 +47,18 @@ func (s *Scen) currentCommittee(sc *chain.StateCtx) []common.ValidatorIndex {
 	return sc.SyncCommittee()
 }
 
+// seatsOf: every position v holds in the committee, and the set of subcommittees they fall into.
+func (s *Scen) seatsOf(members []common.ValidatorIndex, v common.ValidatorIndex) (seats []int, subs map[int]bool) {
+	subs = map[int]bool{}
+	for p, w := range members {
+		if w == v {
+			seats = append(seats, p)
+			subs[p/s.subSize()] = true
+		}
+	}
+	return
+}
+
 func (s *Scen) subSize() int { return int(s.spec().SYNC_COMMITTEE_SIZE) / syncCommitteeSubnetCount }
 
 // ---------------------------------------------------------------- sync committee messages
@@ -80,7 +92,17 @@ func (s *Scen) syncMsgStep(m *syncMsg) *Step {
 	cond["subnet_valid"] = in
 	cond["signature"] = m.sigOK
 	subnet := m.subnet
-	return &Step{Topic: "syncmsg", Desc: m.desc, Variant: m.variant, Cond: cond,
+	seats, subs := s.seatsOf(m.members, m.validator)
+	bnd := ""
+	if m.desc == "honest" && len(subs) > 1 {
+		// a validator sampled into the committee more than once, with seats in different subcommittees
+		if int(m.subnet) == seats[0]/s.subSize() {
+			bnd = "first-subnet-of-multi-seat-validator"
+		} else {
+			bnd = "non-first-subnet-of-multi-seat-validator"
+		}
+	}
+	return &Step{Topic: "syncmsg", Desc: m.desc, Variant: m.variant, Bnd: bnd, Seats: seats, SubSize: s.subSize(), Subnet: int(m.subnet), Cond: cond,
 		Key: map[string][]string{"syncmsg": {keySync(m.slot, m.validator, m.subnet)}}, Now: m.now,
 		Run: func(b *Backend) gossipval.GossipValidatorResult {
 			_, res := gossipval.ValidateSyncCommitteeSubnet(context.Background(), subnet, msg, b)
@@ -151,7 +173,7 @@ func (s *Scen) syncMsgHistories(tier string, rng *rand.Rand) []*History {
 		n := sc.ValidatorCount()
 		members, boundary := s.syncCommitteeFor(sc, site.slot)
 		positions := rng.Perm(size)
-		if len(positions) > nPos {
+		if len(positions) > nPos && s.Name != "multiseat" {
 			positions = positions[:nPos]
 		}
 		name := fmtSite(site.head.Root, site.slot)
@@ -339,10 +361,17 @@ func (s *Scen) contribStep(m *contribMsg) *Step {
 	cond["outer_signature"] = m.outOK
 	cond["aggregate_signature"] = m.aggSigOK
 	bnd := ""
+	seats, subs := s.seatsOf(m.members, m.aggregator)
 	if m.desc == "honest" && m.subIndex == syncCommitteeSubnetCount-1 {
 		bnd = "subcommittee_index=count-1"
 	}
-	return &Step{Topic: "contrib", Desc: m.desc, Variant: m.variant, Bnd: bnd, Cond: cond,
+	if m.desc == "honest" && len(subs) > 1 && int(m.subIndex) != seats[0]/sub {
+		if bnd != "" {
+			bnd += "|"
+		}
+		bnd += "aggregator-in-non-first-subcommittee-of-multi-seat-validator"
+	}
+	return &Step{Topic: "contrib", Desc: m.desc, Variant: m.variant, Bnd: bnd, Seats: seats, SubSize: sub, Subnet: int(m.subIndex), Cond: cond,
 		Key: map[string][]string{"contrib": {keySync(m.slot, m.aggregator, m.subIndex)}}, Now: m.now,
 		Run: func(b *Backend) gossipval.GossipValidatorResult {
 			_, res := gossipval.ValidateSyncContribAndProof(context.Background(), signed, b)
